@@ -57,7 +57,7 @@ def scenario(x, p):
         else:
             choice[s] = p.get('fixed', 'none')
     fault = x.choice('fault', ['none', 'both', 'missing', 'badext',
-                               'badout'])
+                               'badout', 'emptyname'])
     fsec = x.choice('fault_sec', list(free)) \
         if fault not in ('none', 'badout') else None
     if fault == 'badout':
@@ -98,6 +98,10 @@ def scenario(x, p):
                 if c in ('p8', 'png', 'luafile'):
                     gone.add(getattr(args, s))
                     will_fail = True
+            elif fault == 'emptyname':
+                # --gfx "" : a source was named, and it is not a file
+                setattr(args, s, '')
+                will_fail = True
             elif fault == 'badext':
                 # not a cart (nor, for the lua section, a .lua file): a text
                 # file, a picture, a .lua file named for a data section
@@ -240,6 +244,9 @@ def cli(x, p):
             if fsec == sec and fault == 'missing':
                 fn = '/w/nothere.p8'
                 will_fail = True
+            elif fsec == sec and fault == 'emptyname':
+                fn = ''
+                will_fail = True
             elif fsec == sec and fault == 'badext':
                 fn = '/w/notes.txt'
                 if sec != 'lua' and x.bool('badext_is_lua'):
@@ -366,7 +373,7 @@ def twice(x, p):
 
 
 Q = {'_budget': 900}
-FAULTS = ['none', 'both', 'missing', 'badext', 'badout']
+FAULTS = ['none', 'both', 'missing', 'badext', 'badout', 'emptyname']
 HARNESSES = [
     Harness('scenario', scenario,
             quick=[dict(Q, free=['lua', 'gfx']), dict(Q, free=['map', 'sfx']),
